@@ -2242,7 +2242,7 @@ impl<'a, E: quiver_core::effects::Effect> Compiler<'a, E> {
             // Capture this branch's parameter guard (now that the condition's pattern has
             // narrowed it) and the branch_types length, so we can pair the guard with the
             // result type pushed below.
-            let branch_guard = if dispatch_branch {
+            let mut branch_guard = if dispatch_branch {
                 Some(self.branch_parameter_guard(branch))
             } else {
                 None
@@ -2252,6 +2252,16 @@ impl<'a, E: quiver_core::effects::Effect> Compiler<'a, E> {
             // If complement narrowing is valid, compute the complement for the exhaustiveness
             // check and (for non-last branches) accumulate it to narrow subsequent branches.
             if let Some((prov, original, narrowed)) = narrowing.take() {
+                // A pattern that can match NO value of the parameter (`='int` on a nil parameter)
+                // records no narrowing - an empty type is never applied - so the guard read off
+                // the parameter above is still the whole parameter type, and the branch would
+                // claim every argument for its result. It covers nothing.
+                if branch_guard.is_some()
+                    && matches!(prov, Provenance::Parameter)
+                    && self.is_never(narrowed)
+                {
+                    branch_guard = Some(self.program.never());
+                }
                 // This branch narrowed structurally (its narrowing wasn't disabled by a value
                 // requirement), so it faithfully covers its guard. Record the guard so the
                 // uncovered region can be computed as the complement of these — never the
